@@ -30,25 +30,30 @@ template<> struct Item<float> {
   typedef serde<float> SerDe; static const char* name() { return "float"; }
   static float gen(Rng& r) { return r.chance(0.03) ? (r.coin() ? INFINITY : -0.0f) : static_cast<float>(r.range(-2000, 2000)) * 0.125f; }
   static size_t max_size() { return 4; }
+  static float zeroish(Rng& r) { return r.chance(0.45) ? -0.0f : (r.chance(0.8) ? 0.0f : gen(r)); }
 };
 template<> struct Item<double> {
   typedef serde<double> SerDe; static const char* name() { return "double"; }
   static double gen(Rng& r) { return r.chance(0.03) ? (r.coin() ? -INFINITY : 1e300) : std::ldexp(static_cast<double>(r.range(-100000, 100000)), static_cast<int>(r.range(-20, 20))); }
   static size_t max_size() { return 8; }
+  static double zeroish(Rng& r) { return r.chance(0.45) ? -0.0 : (r.chance(0.8) ? 0.0 : gen(r)); }
 };
 template<> struct Item<int64_t> {
   typedef serde<int64_t> SerDe; static const char* name() { return "int64"; }
   static int64_t gen(Rng& r) { return r.chance(0.05) ? (r.coin() ? INT64_MIN : INT64_MAX) : (r.chance(0.5) ? r.range(-50, 50) : static_cast<int64_t>(r.next())); }
+  static int64_t zeroish(Rng& r) { return r.range(0, 2); }
   static size_t max_size() { return 8; }
 };
 template<> struct Item<std::string> {
   typedef serde<std::string> SerDe; static const char* name() { return "string"; }
   static std::string gen(Rng& r) { std::string s; const size_t l = r.chance(0.1) ? 0 : r.below(r.chance(0.1) ? 30 : 6); for (size_t i = 0; i < l; ++i) s += static_cast<char>(r.chance(0.1) ? r.below(256) : 'a' + r.below(26)); return s; }
+  static std::string zeroish(Rng& r) { return r.coin() ? std::string() : std::string(1, static_cast<char>('a' + r.below(2))); }
   static size_t max_size() { return 4 + 30; }
 };
 template<> struct Item<Rec> {
   typedef RecSerde SerDe; static const char* name() { return "custom"; }
   static Rec gen(Rng& r) { Rec x; x.a = static_cast<int32_t>(r.range(-300, 300)); const size_t l = r.below(5); for (size_t i = 0; i < l; ++i) x.s += static_cast<char>('a' + r.below(26)); return x; }
+  static Rec zeroish(Rng& r) { return Rec(static_cast<int32_t>(r.below(2)), std::string()); }
   static size_t max_size() { return 5 + 4; }
 };
 
@@ -90,12 +95,18 @@ template<typename T> struct Kind {
 #endif
 
 // ------------------------------------------------------------------ read-out
+template<typename T> static T zero_canon(const T& v) { return v; }
+static inline float zero_canon(float v) { return v == 0 ? 0.0f : v; }
+static inline double zero_canon(double v) { return v == 0 ? 0.0 : v; }
+
 template<typename T, typename S>
 static std::string observe_q(const S& s, bool reduced) {
   Obs o;
   o.add("k", static_cast<uint32_t>(s.get_k())).add("n", s.get_n()).add("empty", s.is_empty());
-  o.call("min", [&] { return item_str(s.get_min_item()); });
-  o.call("max", [&] { return item_str(s.get_max_item()); });
+  // min / max are compared up to comparator equivalence (-0.0 and +0.0 are the same minimum; REQ recomputes them
+  // from the retained items when the image holds no compaction yet)
+  o.call("min", [&] { return std::string(item_str(zero_canon(s.get_min_item()))); });
+  o.call("max", [&] { return std::string(item_str(zero_canon(s.get_max_item()))); });
   // retained items with weights (as a multiset: the order inside a level is not part of the contract)
   std::vector<std::pair<T, uint64_t>> items;
   uint64_t total = 0;
@@ -104,7 +115,16 @@ static std::string observe_q(const S& s, bool reduced) {
   if (reduced) return o.s;
   o.add("retained", s.get_num_retained()).add("iterated", static_cast<uint64_t>(items.size())).add("estimation", s.is_estimation_mode());
   Kind<T>::extra(o, s);
-  std::sort(items.begin(), items.end(), [](const std::pair<T, uint64_t>& a, const std::pair<T, uint64_t>& b) { return a.first < b.first || (!(b.first < a.first) && a.second < b.second); });
+  // equivalent items (e.g. -0.0 and +0.0) are further ordered by weight and printed form, so the read-out does not depend on their order
+  std::vector<std::string> printed(items.size());
+  std::vector<size_t> ix(items.size());
+  for (size_t i = 0; i < items.size(); ++i) { ix[i] = i; printed[i] = item_str(items[i].first); }
+  std::sort(ix.begin(), ix.end(), [&](size_t a, size_t b) {
+    if (items[a].first < items[b].first) return true;
+    if (items[b].first < items[a].first) return false;
+    if (items[a].second != items[b].second) return items[a].second < items[b].second;
+    return printed[a] < printed[b]; });
+  { std::vector<std::pair<T, uint64_t>> sorted; for (size_t i : ix) sorted.push_back(items[i]); items.swap(sorted); }
   std::string all;
   for (auto& p : items) all += item_str(p.first) + "*" + std::to_string(p.second) + ",";
   o.raw("items", all);
@@ -143,9 +163,10 @@ static void case_q(Rng& r) {
   typedef Kind<T> K;
   typedef typename K::S S;
   typedef typename Item<T>::SerDe SD;
-  const uint16_t k = K::gen_k(r);
+  const unsigned cls = static_cast<unsigned>(r.below(11));
+  // (classic: the base buffer of the equivalent-items class must be able to hold more than 16 items)
+  const uint16_t k = (C09_Q == 3 && cls == 8) ? static_cast<uint16_t>(32u << r.below(2)) : K::gen_k(r);
   const bool hra = r.coin();
-  const unsigned cls = static_cast<unsigned>(r.below(10));
   // capacity scale: the first compaction happens around 2k (KLL k.., REQ ~ 2*k*sections, classic 2k)
   const uint64_t unit = C09_Q == 2 ? 6ULL * k : 2ULL * k;
   uint64_t n = 0; const char* desc = "";
@@ -158,6 +179,7 @@ static void case_q(Rng& r) {
     case 5: n = unit - 2 + r.below(5); desc = "boundary"; break;
     case 6: n = unit + r.below(4 * unit); desc = "estimation"; break;
     case 7: n = 5 * unit + r.below(G().thorough() ? 200 * unit : 40 * unit); desc = "estimation-deep"; break;
+    case 8: n = 17 + r.below(3 * unit); desc = "equivalent-items"; break;   // many items that compare equal (floats: -0.0 / +0.0 differ bitwise)
     default: desc = "post-merge"; break;
   }
   const std::string fam = std::string(K::name()) + "<" + Item<T>::name() + ">";
@@ -166,6 +188,8 @@ static void case_q(Rng& r) {
   bool uniform_k = true;
   if (cls <= 7) {
     for (uint64_t i = 0; i < n; ++i) sk->update(Item<T>::gen(r));
+  } else if (cls == 8) {
+    for (uint64_t i = 0; i < n; ++i) sk->update(Item<T>::zeroish(r));
   } else {
     const uint64_t n1 = r.chance(0.2) ? r.below(5) : r.below(6 * unit), n2 = r.chance(0.2) ? r.below(5) : r.below(6 * unit);
     for (uint64_t i = 0; i < n1; ++i) sk->update(Item<T>::gen(r));
